@@ -98,6 +98,7 @@ func scenario(c cfg) func() {
 		})
 		if c.cancel {
 			vsched.Go("canceller", func() {
+				vsched.Pause()
 				vsched.Observe("cancel", true)
 				cancel()
 			})
